@@ -98,6 +98,12 @@ def check_model(model, cfg, x, G, rng, sync=True, shifts=True):
                 out["status"] = "redraw"
                 out["why"] = "near tie in a max-pool patch"
                 return out
+    # genericity guard of the normalisation layers: near-singular covariance at some LayerNorm/GroupNorm event
+    for e in leaf_events:
+        if e["callee"] == "GroupNorm" and mlgen.near_singular_norm_input(e["obj"], e["args"][0], D):
+            out["status"] = "redraw"
+            out["why"] = "near-singular covariance at a normalisation layer (non-generic activations)"
+            return out
     grey = False
     if sync:
         for idx, e in enumerate(leaf_events):
